@@ -10,6 +10,7 @@ import json
 import math
 import multiprocessing
 import os
+import re
 import signal
 import sys
 import time
@@ -105,8 +106,12 @@ def violation(sig, msg, **detail):
 
 
 class SubCheck:
-    def __init__(self, name, strategy, check, quick, thorough, procs_quick=4, stateful=False, max_shrink_s=60):
+    def __init__(self, name, strategy, check, quick, thorough, procs_quick=4, stateful=False, max_shrink_s=60,
+                 fuzz=None):
         self.name = name
+        # optional coverage-guided campaign (atheris) on top of the random search:
+        # {"quick": runs, "thorough": runs, "modules": [mpf modules to instrument]}
+        self.fuzz = fuzz
         self.strategy = strategy      # zero-arg callable returning a hypothesis strategy
         self.check = check            # check(case) -> Result
         self.quick = quick
@@ -310,6 +315,12 @@ def run_property(mod, tier, only=None, scale=1.0):
             if out["violation"] is not None:
                 violations.append((out["sub"], out["violation"]))
 
+    # ---- coverage-guided campaigns (atheris) for the sub-checks that ask for one
+    fuzz_info = {}
+    for sc in subs:
+        if sc.fuzz:
+            fuzz_info[sc.name] = _fuzz_campaign(mod, sc, tier, seed, scale, agg[sc.name], violations, harness_errors)
+
     # ---- verdict
     rc = 0
     replay_dir = os.path.join(env.VERIF, "replays")
@@ -377,6 +388,8 @@ def run_property(mod, tier, only=None, scale=1.0):
         "harness_errors": len(harness_errors),
         "repo": env.REPO,
     }
+    if fuzz_info:
+        ev["coverage"]["coverage_guided"] = fuzz_info
     extra = getattr(mod, "extra_evidence", None)
     if extra:
         ev["coverage"].update(extra())
@@ -392,6 +405,69 @@ def run_property(mod, tier, only=None, scale=1.0):
         print("  %-14s n=%-7d nontrivial=%-7d %s" % (name, a["evaluations"], len(a["nontrivial"]),
                                                    dict(a["classes"].most_common(8))))
     return rc
+
+
+def _fuzz_campaign(mod, sc, tier, seed, scale, a, violations, harness_errors):
+    """Runs atheris workers (vlib/fuzzworker.py) for one sub-check and merges what they found."""
+    import shutil
+    import subprocess
+    import tempfile
+    info = {"engine": "atheris (libFuzzer) driving the sub-check's Hypothesis strategy via fuzz_one_input",
+            "instrumented": sc.fuzz.get("modules", [])}
+    if not os.path.isdir(os.path.join(env.VERIF, ".deps", "atheris")):
+        info["skipped"] = "atheris is not installed under .deps (MANIFEST.setup_cmd installs it)"
+        return info
+    runs = int(sc.fuzz.get(tier, 0) * scale)
+    if runs <= 0:
+        info["skipped"] = "no coverage-guided budget in this tier"
+        return info
+    procs = 8 if tier == "thorough" else 2
+    per = max(1, runs // procs)
+    work = tempfile.mkdtemp(prefix="fuzz_%s_%s_" % (mod.PROPERTY, sc.name))
+    ps = []
+    for i in range(procs):
+        out = os.path.join(work, "w%d.json" % i)
+        cmd = [sys.executable, "-m", "vlib.fuzzworker", mod.__name__, sc.name, str(per), str(seed * 1000 + i + 1), out]
+        ps.append((out, subprocess.Popen(cmd, cwd=env.VERIF, stdout=subprocess.DEVNULL, stderr=subprocess.PIPE,
+                                         text=True)))
+    execs = cov = ft = reached = 0
+    t0 = time.time()
+    for out, p in ps:
+        try:
+            _, err = p.communicate(timeout=4 * 3600)
+        except subprocess.TimeoutExpired:
+            p.kill()
+            _, err = p.communicate()
+        m = re.findall(r"stat::number_of_executed_units:\s*(\d+)", err or "")
+        c = re.findall(r"cov: (\d+) ft: (\d+)", err or "")
+        st = None
+        if os.path.exists(out):
+            with open(out) as f:
+                st = json.load(f)
+        n = int(m[-1]) if m else (st or {}).get("evaluations", 0)
+        execs += n
+        if c:
+            cov, ft = max(cov, int(c[-1][0])), max(ft, int(c[-1][1]))
+        if st is None:
+            harness_errors.append((sc.name, {"case": None, "traceback": "fuzz worker wrote no state; stderr tail:\n" +
+                                             (err or "")[-1500:]}))
+            continue
+        a["evaluations"] += st["evaluations"]
+        reached += st["evaluations"]
+        a["nontrivial"] |= set(st["nontrivial"])
+        a["known"].update(st["known"])
+        if st.get("harness_error"):
+            harness_errors.append((sc.name, st["harness_error"]))
+        elif p.returncode not in (0,):
+            harness_errors.append((sc.name, {"case": None, "traceback": "fuzz worker exit %s; stderr tail:\n%s" %
+                                             (p.returncode, (err or "")[-1500:])}))
+        for sig, v in st["violations"].items():
+            violations.append((sc.name, {"case": v["case"], "violation": v["violation"]}))
+    shutil.rmtree(work, ignore_errors=True)
+    info.update({"workers": procs, "executions": execs, "executions_that_reached_the_oracle_at_least": reached,
+                 "edges_covered": cov, "features": ft,
+                 "wall_s": round(time.time() - t0, 1)})
+    return info
 
 
 def zlib_crc(s):
